@@ -1,4 +1,5 @@
 import LyModel.Lyb.TreeLemmasD
+import LyModel.Lyb.TreeLemmasF
 /-!
 # C01 (LYB, tree level) — property theorems
 
@@ -14,28 +15,50 @@ open LyModel LyModel.Lyb LyModel.Tree LyModel.LybTree LyModel.Generated
 print the same bytes; the node flags, `LYD_DEFAULT` among them, are always written) -/
 def Untagged (o : POpts) : Prop := o.tagAll = false ∧ o.tagImpl = false
 
-/-- **LYB tree round trip.**  For every chunk-size parameter set `P` (side conditions `P.Ok`, satisfied by the constants
-of lyb.h: `params_gen_ok`), every schema view `S` (any sibling sets, any names — the hash collisions are whatever the real
-`lyb_generate_hash` gives), every forest `t` whose nodes fit the schema (`WfForest`: leaf / leaf-list nodes carry the
-canonical form of a value of their type — any of the `Val` types or `empty` —, inner nodes are containers or list
-instances, keyed or key-less, in any number and order) and every untagged with-defaults mode:
-**if the printer succeeds** (`printLyb … = some img`: `lyb_hash_siblings` resolves every sibling set that occurs — the
-decidable condition of `lyb_hash_lookup_correct`, finding F27 is its failure — and no inner-chunk counter overflows),
-the parser run on the image returns exactly `t`: same nodes, order, canonical values, flags.
-`fuel` bounds the parser's recursion (`costL t`: number of nodes + nesting); the driver uses `8·|img| + 16`. -/
-theorem lyb_tree_roundtrip (P : Params) (hP : P.Ok) (o : POpts) (ho : Untagged o) (S : LSchema)
+/-- the revision word of `ietf-netconf-with-defaults` (when the context has the module) survives the 7-bit year packing -/
+def WdRevOk (S : LSchema) : Prop := ∀ w, S.wd = some w → unpackRev (packRev w) = w
+
+/-- **LYB tree round trip, every with-defaults mode, the code as it is** (the true part of the full statement, which
+`lyb_tree_roundtrip_tagged_fails` refutes).  For every chunk-size parameter set `P` (side conditions `P.Ok`), every schema
+view `S` (any sibling sets, any names — the hash collisions are whatever the real `lyb_generate_hash` gives), every forest
+`t` whose nodes fit the schema (`WfForest`: leaf / leaf-list nodes carry the canonical form of a value of their type — any
+of the `Val` types or `empty` —, inner nodes are containers or list instances, keyed or key-less, in any number and order)
+and EVERY print option: **if the printer succeeds** (`printLyb … = some img`: `lyb_hash_siblings` resolves every sibling
+set that occurs — finding F27 is its failure — and no inner-chunk counter overflows), the parser run on the image returns
+`t` with the same nodes, order, canonical values and flags, where exactly the nodes the printer tagged (`wdTagged`:
+`LYD_DEFAULT` under ALL_TAG / IMPL_TAG, or a default-valued term node under ALL_TAG) carry the
+`ietf-netconf-with-defaults:default` annotation as a metadata instance (`viewNode`).  `parseLyb` is the parser with the fuel the driver gives it (`8·|img| + 16`); that it suffices is part of
+the theorem (`cost_le_image`: every node costs the printer at least five payload bytes, and the image holds the payload). -/
+theorem lyb_tree_roundtrip_tagged_partial (P : Params) (hP : P.Ok) (o : POpts) (S : LSchema) (hwd : WdRevOk S)
     (hname : S.modName ≠ []) (hrev : unpackRev (packRev S.rev) = S.rev)
-    (t : List DNode) (hwf : WfForest S t) (img : Bytes) (hp : printLyb P o S t = some img)
-    (fuel : Nat) (hf : costL t + 1 ≤ fuel) :
-    parseLybF P S fuel img = some t :=
-  doc_rt P hP o ho S hname hrev t hwf img hp fuel hf
+    (t : List DNode) (hwf : WfForest S t) (img : Bytes) (hp : printLyb P o S t = some img) :
+    parseLyb P S img = some (t.map (viewNode o S)) :=
+  doc_rt P hP o S hwd hname hrev t hwf img hp _ (by have := cost_le_image P hP o S t img hp; omega)
+
+/-- **LYB tree round trip** (untagged modes: explicit / trim / all): `parse (print t) = t`. -/
+theorem lyb_tree_roundtrip (P : Params) (hP : P.Ok) (o : POpts) (ho : Untagged o) (S : LSchema) (hwd : WdRevOk S)
+    (hname : S.modName ≠ []) (hrev : unpackRev (packRev S.rev) = S.rev)
+    (t : List DNode) (hwf : WfForest S t) (img : Bytes) (hp : printLyb P o S t = some img) :
+    parseLyb P S img = some t := by
+  have := lyb_tree_roundtrip_tagged_partial P hP o S hwd hname hrev t hwf img hp
+  rwa [viewL_id o S (fun n => untagged o S n (Or.inl ho))] at this
+
+/-- **… with the repair of finding F330** (`fixes/F330.diff`: `lyb_print_metadata` without the with-defaults block — the
+extractor then sets `lybWdAnnot = false`, the default of `POpts.wdAnnot`): `parse (print t) = t` under EVERY
+with-defaults mode, the tagged ones included: the flags carry the default-ness exactly. -/
+theorem lyb_tree_roundtrip_tagged_fixed (P : Params) (hP : P.Ok) (o : POpts) (hfix : o.wdAnnot = false) (S : LSchema)
+    (hwd : WdRevOk S) (hname : S.modName ≠ []) (hrev : unpackRev (packRev S.rev) = S.rev)
+    (t : List DNode) (hwf : WfForest S t) (img : Bytes) (hp : printLyb P o S t = some img) :
+    parseLyb P S img = some t := by
+  have := lyb_tree_roundtrip_tagged_partial P hP o S hwd hname hrev t hwf img hp
+  rwa [viewL_id o S (fun n => untagged o S n (Or.inr hfix))] at this
 
 /-- the same at the constants of the source tree -/
-theorem lyb_tree_roundtrip_gen (o : POpts) (ho : Untagged o) (S : LSchema) (hname : S.modName ≠ [])
+theorem lyb_tree_roundtrip_gen (o : POpts) (ho : Untagged o) (S : LSchema) (hwd : WdRevOk S) (hname : S.modName ≠ [])
     (hrev : unpackRev (packRev S.rev) = S.rev) (t : List DNode) (hwf : WfForest S t) (img : Bytes)
-    (hp : printLyb Params.gen o S t = some img) (fuel : Nat) (hf : costL t + 1 ≤ fuel) :
-    parseLybF Params.gen S fuel img = some t :=
-  lyb_tree_roundtrip Params.gen C01Lyb.params_gen_ok o ho S hname hrev t hwf img hp fuel hf
+    (hp : printLyb Params.gen o S t = some img) :
+    parseLyb Params.gen S img = some t :=
+  lyb_tree_roundtrip Params.gen C01Lyb.params_gen_ok o ho S hwd hname hrev t hwf img hp
 
 /-- the revision hypothesis holds for a module without revision and (by `lyb_revision_pack_roundtrip`) for every date
 2000-01-01 … 2127-12-31; outside that range the format cannot hold the year (finding F70) -/
@@ -60,6 +83,35 @@ theorem lyb_term_value_roundtrip (P : Params) (hP : P.Ok) (d : Nat) (ty : LTy) (
     (ho : valueOps ty v = some ops) (hc : CanonVal ty v) (K : List Op) (r : R) (h : At P d (ops ++ K) r) :
     ∃ r', pValue P ty r = some (r', v) ∧ At P d K r' :=
   value_at P hP d ty v ops ho hc K r h
+
+/-! ## annotations of a module the parsing context does not have (finding F331) -/
+
+/-- **Skip branch of `lyb_parse_metadata`, repaired** (`fixes/F331.diff`): when the length fields are read with the widths
+the printer used (`R_METASKIPNAME = P_METANAME`, `R_METASKIPVAL = P_METAVAL` — the hypotheses are facts about the
+generated constants, closed by `rfl` on the repaired tree), skipping the name and the value of an annotation leaves the
+reader exactly behind it, whatever follows and wherever chunk boundaries fall. -/
+theorem lyb_meta_skip_fixed (hn : LybTree.R_METASKIPNAME = LybTree.P_METANAME) (hv : LybTree.R_METASKIPVAL = LybTree.P_METAVAL)
+    (P : Params) (hP : P.Ok) (d : Nat) (name val : Bytes) (x y : List Op)
+    (hx : strOps LybTree.P_METANAME name = some x) (hy : strOps LybTree.P_METAVAL val = some y) (K : List Op) (r : R)
+    (h : At P d (x ++ (y ++ K)) r) : At P d K (pMetaSkip P r) := by
+  simp only [pMetaSkip, hn, hv]
+  exact metaSkip_at P hP d name val x y hx hy K r h
+
+/-- "the skip branch lands behind the annotation" is **false** for the widths of the pinned tree (value length read on 2
+bytes, printed on 8 — finding F331, replayed on libyang: heap overflow in `ly_in_read`): after the annotation
+`hint = "hello"` followed by the flags word `7` the reader stands inside the value length field; the next four bytes it
+takes for the flags are `0 0 0 0`, then `0 0 104 101` … -/
+theorem lyb_meta_skip_fails :
+    ¬ ∀ (name val : Bytes) (tail : Bytes),
+        (pMetaSkipW Params.gen 2 2 { inp := leBytes 2 name.length ++ name ++ leBytes 8 val.length ++ val ++ tail }).inp = tail := by
+  intro H
+  have := H [104, 105, 110, 116] [104, 101, 108, 108, 111] [7, 0, 0, 0]
+  revert this
+  decide
+
+/-- … while with the printed widths the same input is passed exactly -/
+example : (pMetaSkipW Params.gen 2 8 { inp := leBytes 2 4 ++ [104, 105, 110, 116] ++ leBytes 8 5 ++ [104, 101, 108, 108, 111] ++ [7, 0, 0, 0] }).inp
+    = [7, 0, 0, 0] := by decide
 
 /-! ## non-vacuity -/
 
@@ -92,12 +144,12 @@ with the container — whose frame holds the leaf and the leaf-list frame — an
 the parse of the image -/
 theorem exPrint : printLyb Params.gen {} exS exT = some exImg := by decide
 
-example : parseLybF Params.gen exS 40 exImg = some exT :=
-  lyb_tree_roundtrip_gen {} ⟨rfl, rfl⟩ exS (by decide) (by decide) exT
+example : parseLyb Params.gen exS exImg = some exT :=
+  lyb_tree_roundtrip_gen {} ⟨rfl, rfl⟩ exS (by intro w h; cases h) (by decide) (by decide) exT
     (by
       refine ⟨⟨rfl, rfl, ⟨rfl, trivial, .bool true, rfl, rfl⟩, ⟨rfl, ⟨by simp [Val.Ty.WF, Val.PartsWF], .num 7, rfl, rfl⟩⟩,
         ⟨rfl, ⟨by simp [Val.Ty.WF, Val.PartsWF], .num 255, rfl, rfl⟩⟩, trivial⟩, ⟨rfl, rfl⟩, trivial⟩)
-    exImg exPrint 40 (by decide)
+    exImg exPrint
 
 /-! ## outside the hypotheses -/
 
@@ -134,7 +186,7 @@ theorem lyb_tree_roundtrip_tagged_fails :
     ¬ ∀ (o : POpts) (S : LSchema) (t : List DNode) (img : Bytes), printLyb Params.gen o S t = some img →
         (match parseLybF Params.gen S 40 img with | some t' => beqL t' t | none => false) = true := by
   intro H
-  have := H { tagImpl := true } exSwd exT ((printLyb Params.gen { tagImpl := true } exSwd exT).getD []) (by decide)
+  have := H { tagImpl := true, wdAnnot := true } exSwd exT ((printLyb Params.gen { tagImpl := true, wdAnnot := true } exSwd exT).getD []) (by decide)
   revert this
   decide
 
